@@ -5,6 +5,14 @@ V = os.path.dirname(os.path.dirname(os.path.abspath(__file__)))
 
 # id -> (engine, level category, technique, level text, level note, design ref)
 CLAIMED = {
+ "C01": ("E-TAB+E-SW", "other", "match-table SPEC of operator lowering, AGREE of opcode identity / operand order across the allocated -> fuel_asm and asm-text -> virtual layers (syn), token-structure rules on the std operator impls of u8/u16/u32 (Sway tokenizer)",
+         "Decides three table-shaped clauses of code generation: every BinaryOpKind / Predicate / UnaryOpKind is lowered to the opcode the language "
+         "prescribes with operands in (dest, lhs, rhs) order; every allocated instruction is encoded as the fuel_asm op of the same name with its "
+         "operands in the same order, and every asm mnemonic builds the VirtualOp of the same name; the std Add/Subtract/Multiply impls of u8/u16/u32 "
+         "compute in u64, range-check against the type's maximum and revert under panic_on_overflow_enabled(), u16/u32 siblings agree, and << masks "
+         "to the width. It does not decide code generation as a whole (control flow, memory layout, calls).",
+         "Trusted: syn; rules/lib/sw.py tokenizer; FuelVM opcode semantics; spec/ops_lowering.txt.",
+         "DESIGN.md §3 C01"),
  "C03": ("E-TAB", "other", "syntax-tree table extraction: COVER / NOWILD / IMPLIES / SPEC rules over all InstOp and FuelVmInstruction variants",
          "Decides that the per-instruction tables every IR pass is built on (operand enumeration/rewriting, side-effect, terminator, "
          "memory read/write, CSE keys, fn-dedup hashing, inliner cloning, pass registry) are complete and mutually consistent for all "
